@@ -366,6 +366,28 @@ func TestCheck(t *testing.T) {
 		})
 	})
 
+	// Phase C5: the text parser's MaxInputLength is no input of the binary form: dates and bodies under limits 1..7, 0 and huge.
+	r.Phase("C5: dates and bodies while the text parser's MaxInputLength is 1, 2, 6, 7, 8, 0, MaxInt", func() {
+		old := date.MaxInputLength
+		defer func() { date.MaxInputLength = old }()
+		for _, lim := range []int{1, 2, 6, 7, 8, 0, int(^uint(0) >> 1)} {
+			date.MaxInputLength = lim
+			r.Serial(func(w *vkit.W) {
+				for _, y := range []int64{-400, -1, 0, 1, 2024, 9999, 123456789} {
+					for _, md := range [][2]int{{1, 1}, {2, 28}, {2, 29}, {2, 30}, {12, 31}, {13, 1}, {6, 31}} {
+						judge(Case{Kind: "bytes", Data: vkit.B(encode(y, md[0], md[1]))}, w)
+						if ref.ValidYMD(y, md[0], md[1]) {
+							judge(Case{Kind: "date", Y: y, M: md[0], D: md[1]}, w)
+						}
+						w.EvalRandom(vkit.HashU(uint64(y), uint64(md[0]*64+md[1]), uint64(lim), 55), true)
+					}
+				}
+				judge(Case{Kind: "bytes", Data: ""}, w)
+				judge(Case{Kind: "bytes", Data: vkit.B(append(encode(2024, 2, 29), 1, 2, 3))}, w)
+			})
+		}
+	})
+
 	r.Phase(fmt.Sprintf("D: %d seeded random dates out to +-999,999,999 and random 7-byte bodies", nRand), func() {
 		r.Parallel(nRand, 4096, func(w *vkit.W, a, b int64) {
 			for i := a; i < b; i++ {
